@@ -111,10 +111,12 @@ namespace c17
         double cut_, weight_;
     };
 
-    inline Json genOps(sim::Rng &g, bool thorough)
+    inline Json genOps(sim::Rng &g, bool thorough, bool directed = false)
     {
         Json ops = Json::array();
         int nops = (int)g.range(1, thorough ? 8 : 4);
+        // direction-dependent (Dubins) worlds: the routines the library itself applies to non-metric spaces
+        static const char *directedKinds[] = {"reduceVertices", "reduceVertices", "collapseCloseVertices", "simplify", "simplifyTimed", "simplifyMax"};
         static const char *kinds[] = {"reduceVertices", "ropeShortcutPath", "partialShortcutPath", "collapseCloseVertices", "smoothBSpline",
                                       "perturbPath", "findBetterGoal", "findBetterGoalTimed", "simplify", "simplifyTimed", "simplifyMax",
                                       "interpolateN", "interpolate", "subdivide", "hybridize"};
@@ -122,6 +124,8 @@ namespace c17
         {
             Json op = Json::object();
             op["op"] = g.pick(kinds);
+            if (directed)
+                op["op"] = g.pick(directedKinds);
             op["max_steps"] = (long)g.pick(std::vector<double>{0, 1, 5, 50});
             op["max_empty"] = (long)g.pick(std::vector<double>{0, 1, 5});
             op["range_ratio"] = g.pick(std::vector<double>{0.05, 0.33, 1.0});
@@ -235,16 +239,20 @@ namespace c17
                         ok = true;
                         hint = k + 1;
                     }
+                // (where the distance is direction-dependent a piece of a motion counts only in the direction it was validated)
+                const bool directedSpace = !sp->hasSymmetricDistance();
+                auto inOrder = [&](const ob::State *a) { return !directedSpace || gdist(*c.w, a, x) <= gdist(*c.w, a, y) + 1e-7 * scale; };
                 for (size_t k = 0; !ok && k + 1 < before.getStateCount(); k++)
                 {
                     const ob::State *a = before.getState((unsigned)k), *b = before.getState((unsigned)k + 1);
-                    ok = onSegment(*c.w, a, b, x, scale) && onSegment(*c.w, a, b, y, scale);
+                    ok = onSegment(*c.w, a, b, x, scale) && onSegment(*c.w, a, b, y, scale) && inOrder(a);
                     work++;
                     if (ok)
                         hint = k;
                 }
                 for (size_t k = 0; !ok && k < c.rec->log.size(); k++, work++)
-                    ok = onSegment(*c.w, c.rec->log[k].first, c.rec->log[k].second, x, scale) && onSegment(*c.w, c.rec->log[k].first, c.rec->log[k].second, y, scale);
+                    ok = onSegment(*c.w, c.rec->log[k].first, c.rec->log[k].second, x, scale) && onSegment(*c.w, c.rec->log[k].first, c.rec->log[k].second, y, scale) &&
+                         inOrder(c.rec->log[k].first);
                 if (work > workCap)
                 {
                     res.inconclusive = true;
@@ -317,7 +325,7 @@ namespace c17
         for (int attempt = 0; attempt < 3; attempt++)
         {
             ob::PlannerPtr pl;
-            if (attempt == 1)
+            if (attempt == 1 || c.w->curved)  // (RRTConnect grows its goal tree backwards: not for direction-dependent spaces)
                 pl = std::make_shared<og::RRT>(c.w->si);
             else
                 pl = std::make_shared<og::RRTConnect>(c.w->si);
